@@ -4,6 +4,7 @@
 package main
 
 import (
+	"regexp"
 	"encoding/json"
 	"fmt"
 	"os"
@@ -80,6 +81,57 @@ func evidPath(parts ...string) string {
 }
 
 var altRepo = ""
+
+var raceSeen = map[string]bool{}
+
+// raceBlocks splits a GORACE log into its report blocks.
+func raceBlocks(log string) []string {
+	var out []string
+	parts := strings.Split(log, "WARNING: DATA RACE")
+	for _, p := range parts[1:] {
+		if k := strings.Index(p, "=================="); k >= 0 {
+			p = p[:k]
+		}
+		out = append(out, "WARNING: DATA RACE"+p)
+	}
+	return out
+}
+
+var raceFrameRe = regexp.MustCompile(`(?m)^  ([^\s(]+)\(`)
+
+// raceKey: the two access stacks reduced to their innermost frames inside sonic (or
+// the harness), line numbers stripped - reports of the same pair of accesses collapse.
+func raceKey(blk string) string {
+	secs := strings.Split(blk, "\n\n")
+	var keys []string
+	for _, sec := range secs {
+		if !(strings.Contains(sec, "Write at") || strings.Contains(sec, "Read at") || strings.Contains(sec, "Previous write") || strings.Contains(sec, "Previous read")) {
+			continue
+		}
+		fr := ""
+		for _, m := range raceFrameRe.FindAllStringSubmatch(sec, -1) {
+			if strings.Contains(m[1], "bytedance/sonic") || strings.HasPrefix(m[1], "main.") {
+				fr = m[1]
+				break
+			}
+		}
+		if fr == "" {
+			if m := raceFrameRe.FindStringSubmatch(sec); m != nil {
+				fr = m[1]
+			}
+		}
+		kind := strings.Fields(strings.TrimSpace(sec))
+		k := ""
+		if len(kind) > 1 {
+			k = strings.Join(kind[:2], " ")
+		}
+		keys = append(keys, k+" "+fr)
+	}
+	if len(keys) > 2 {
+		keys = keys[:2]
+	}
+	return strings.Join(keys, " <-> ")
+}
 
 func main() {
 	if v := os.Getenv("VERIF_DIR"); v != "" {
@@ -198,6 +250,24 @@ func execute(plan *Plan) int {
 				v.Crashes = append(v.Crashes, x)
 			}
 			crashes += len(br.Crashes)
+			// reports of the race detector (GORACE log_path files of a race-flavoured run)
+			for _, rl := range br.RaceLogs {
+				rb, err := os.ReadFile(rl)
+				if err != nil {
+					continue
+				}
+				for _, blk := range raceBlocks(string(rb)) {
+					v.Counters["race_reports"]++
+					key := raceKey(blk)
+					if raceSeen[key] {
+						continue
+					}
+					raceSeen[key] = true
+					v.Counters["race_reports_distinct"]++
+					v.Violations = append(v.Violations, Violation{Run: r.Name, Batch: br.Batch, Case: -1, API: "race detector", Msg: "DATA RACE: " + key, Detail: head(blk, 6000)})
+					v.VCount++
+				}
+			}
 			if br.Completed {
 				completed++
 			} else {
